@@ -188,7 +188,7 @@ CLAIMED = {
  },
  "C15": {
   "technique": "Lean 4 proof (string-table round trips by decide over regenerated tables, JSON round trip, Matches/FilterIgnores laws, exit-status theorems) + correspondence with DiffCommand.Execute",
-  "text": ("Proof: 22 theorems over the report model and the REGENERATED code/compatibility string tables - every code and compatibility name "
+  "text": ("Round-5 additions: breaking_only_respects_ignores (the Breaking section of `-b` under an ignore file lists exactly the Breaking entries the ignore file does not name), breaking_only_ignore_all, breaking_only_exit_zero_when_breaking_ignored, formats_read_the_filtered_list (the JSON report IS the filtered list; both text reports have the same exit status). Proof: 22 theorems over the report model and the REGENERATED code/compatibility string tables - every code and compatibility name "
            "round-trips through the inverse table built in init (complete finite quantifier, decide), a whole difference survives JSON encode/decode "
            "(omitempty rules), Matches is equality, FilterIgnores removes exactly the listed entries (ignore_all, ignore_mem, ignore_sub), text and "
            "breaking-only modes exit non-zero iff a non-ignored Breaking entry exists, each report section is a permutation of its class; "
